@@ -2,6 +2,8 @@
 
 from __future__ import annotations
 
+import collections
+
 from lsst.daf.relation import MarkerRelation, Materialization, Transfer
 
 from .. import spaces, walk
@@ -130,6 +132,22 @@ class C07(Check):
                 tr.count("hook:" + kind)
                 if trivial:
                     tr.violation("hook-on-trivial-source", f"{kind} hook invoked for statically trivial source {src}")
+                    return True
+            # materialize_as may only name a materialization that sits directly on the transfer being executed
+            direct = collections.Counter()
+            for m in (n for n in walk.spine_walk(rel) if isinstance(n, Materialization)):  # occurrences, with repeats
+                core = m.target
+                while isinstance(core, MarkerRelation) and not isinstance(core, (Transfer, Materialization)):
+                    core = core.target
+                if isinstance(core, Transfer):
+                    direct[m.name] += 1
+            used = collections.Counter(name for kind, src, trivial, name in proc.log if kind == "transfer" and name is not None)
+            for name, n in used.items():
+                if n > direct[name]:
+                    tr.violation(
+                        "materialize-as-leaked",
+                        f"transfer hook received materialize_as={name!r} {n} time(s) but only {direct[name]} materialization(s) of that name sit directly on a transfer",
+                    )
                     return True
             # no materialization computed twice
             mats = {}
